@@ -26,5 +26,5 @@ For each change k = 1..{n} write into /tmp/mut-{pid}/m<k>/ :
   - patch.diff   : `git diff` of the change against the pinned commit (only non-test source files of the repository), applying cleanly with `git apply` at the repository root
   - demo_test.go (or demo/main.go): a demonstration - a Go test (state its package directory in meta.json; it is copied into that directory to run) or a small program - that FAILS with the change applied and PASSES without it, and that demonstrates the property violation (not just a changed internal detail)
   - meta.json    : {{"property": "{pid}", "summary": "...what was changed...", "needs": "...what specific condition it needs in order to manifest...", "demo_pkg_dir": "core", "demo_run": "exact command to run the demo", "tests_run": "exact test commands you ran with the change applied, and that they passed"}}
-After producing each patch, `git checkout -- .` (and remove your demo file from the tree) so the worktree is clean before the next one; verify the demonstration passes on the clean tree and fails with the patch. Leave the worktree clean at the end.
+Never use `git stash` (it is shared between worktrees). After producing each patch, `git checkout -- .` (and remove your demo file from the tree) so the worktree is clean before the next one; verify the demonstration passes on the clean tree and fails with the patch. Leave the worktree clean at the end.
 Finish with a short report listing, for each change, the files touched and a one-paragraph description. Be efficient: do not run the entire repository test suite, only the relevant packages (use -timeout 10m).""")
